@@ -1055,3 +1055,45 @@ silent('c16-tls-precheck-removed', 'C16',
                 raise RuntimeError(
                     _("Unable to access ssl cert_file  : %s") % cert_file)
 """, "")])
+
+# ------------------------------------------------------------------ C17
+fire('c17-subsequent-indent', 'C17',
+     [(GEN, "        return textwrap.wrap(' '.join(lines), 70, initial_indent='# ',\n                             subsequent_indent='# ')",
+       "        return textwrap.wrap(' '.join(lines), 70, initial_indent='# ',\n                             subsequent_indent='')")], 'C17.SANITIZER')
+fire('c17-literal-block-raw', 'C17',
+     [(GEN, "            formatted_lines.append('# %s' % line.rstrip())", "            formatted_lines.append('%s' % line.rstrip())")], 'C17.SANITIZER')
+fire('c17-raw-reason', 'C17',
+     [(GEN, "             'reason': _format_help_text(default.deprecated_reason),\n             'text': text}", "             'reason': default.deprecated_reason,\n             'text': text}")], 'C17.LINES')
+fire('c17-comment-rule-default', 'C17',
+     [(GEN, "def _format_rule_default_yaml(default, include_help=True, comment_rule=True,", "def _format_rule_default_yaml(default, include_help=True, comment_rule=False,")], 'C17.CONSTS')
+fire('c17-include-help-default', 'C17',
+     [(GEN, "def _generate_sample(namespaces, output_file=None, output_format='yaml',\n                     include_help=True, exclude_deprecated=False):",
+       "def _generate_sample(namespaces, output_file=None, output_format='yaml',\n                     include_help=False, exclude_deprecated=False):")], 'C17.CONSTS')
+fire('c17-raw-description', 'C17',
+     [(GEN, "            text = _format_help_text(default.description) + '\\n' + text", "            text = '# ' + default.description + '\\n' + text")], 'C17.LINES')
+fire('c17-deprecated-text-raw', 'C17',
+     [(GEN, "            deprecated_text=_format_help_text(deprecated_text)", "            deprecated_text=deprecated_text")], 'C17.LINES')
+fire('c17-alias-line-uncommented', 'C17',
+     [(GEN, "            text += ('# \"%(old_name)s\": \"rule:%(name)s\"\\n' %", "            text += ('\"%(old_name)s\": \"rule:%(name)s\"\\n' %")], 'C17.LINES')
+fire('c17-op-line-uncommented', 'C17',
+     [(GEN, "                    op += ('# %(method)s  %(path)s\\n' %", "                    op += ('%(method)s  %(path)s\\n' %")], 'C17.LINES')
+fire('c17-rule-line-name-twice', 'C17',
+     [(GEN, "    text = ('\"%(name)s\": \"%(check_str)s\"\\n' %\n            {'name': default.name,\n             'check_str': default.check_str})\n\n    if include_help:",
+       "    text = ('\"%(name)s\": \"%(check_str)s\"\\n' %\n            {'name': default.name,\n             'check_str': default.name})\n\n    if include_help:")], 'C17.RULE-LINE')
+fire('c17-sections-uncomment', 'C17',
+     [(GEN, "                    include_help=include_help,\n                    add_deprecated_rules=not exclude_deprecated)", "                    include_help=include_help, comment_rule=False,\n                    add_deprecated_rules=not exclude_deprecated)")], 'C17.CONSTS')
+fire('c17-sanitizer-returns-empty', 'C17',
+     [(GEN, "    if not description:\n        return '#'", "    if not description:\n        return ''")], 'C17.SANITIZER')
+fire('c17-json-shape', 'C17',
+     [(GEN, "    return ('\"%(name)s\": \"%(check_str)s\"' %\n            {'name': default.name,\n             'check_str': default.check_str})", "    return ('\"%(name)s\": \"%(check_str)s\"' %\n            {'name': default.name,\n             'check_str': default.description})")], 'C17.JSON')
+silent('c17-no-warn', 'C17',
+       [(GEN, """                warnings.warn(
+                    'Invalid policy description: literal blocks must be '
+                    'preceded by a new line. This will raise an exception in '
+                    'a future version of oslo.policy:\\n%s' % description,
+                    FutureWarning)
+""", "")])
+silent('c17-rstrip-variants', 'C17',
+       [(GEN, "            paragraph.append(line.rstrip())", "            paragraph.append(line)")])
+silent('c17-wrap-width', 'C17',
+       [(GEN, "        return textwrap.wrap(' '.join(lines), 70, initial_indent='# ',", "        return textwrap.wrap(' '.join(lines), 72, initial_indent='# ',")])
